@@ -17,6 +17,17 @@ HERE = os.path.dirname(os.path.dirname(os.path.abspath(__file__)))
 REPO = os.environ.get("VERIF_REPO", "/repo")
 
 
+def prepare_program(prog):
+    """mechanical extractions some contract modules need (rebuilt from the current source on every run)"""
+    import contracts
+    out = {}
+    for name in contracts.MODULES:
+        m = importlib.import_module("contracts." + name)
+        if hasattr(m, "prepare"):
+            out[name] = m.prepare(prog)
+    return out
+
+
 def load_spec():
     from pyvc.spec import Spec
     S = Spec()
